@@ -45,8 +45,14 @@ def _case(draw):
         kind = draw(st.sampled_from(['value'] * 5 + B.BEHAVIOURS[1:] + ['excstop']))
         if kind != 'value':
             behave[k] = kind
+    mutate = None
+    if draw(st.integers(0, 5)) == 0:
+        # max_batch_size "can be safely mutated after initialization": every call must still be answered
+        cfg = dict(cfg, form='class')          # (only the class exposes the attribute)
+        mutate = {'at': draw(st.sampled_from([c['at'] for c in calls])) + draw(st.sampled_from([0, H.U, H.U, 2 * H.U, cfg['bt']])),
+                  'mbs': draw(st.integers(1, 5))}
     return {'cfg': cfg, 'calls': calls, 'behave': behave, 'order': draw(st.sampled_from(['fwd', 'rev', 'rot'])),
-            'bdur': bdur, 'idur': draw(st.sampled_from([0, 0, H.U, 4 * H.U])), 'mutate': None, 'fresh': 1,
+            'bdur': bdur, 'idur': draw(st.sampled_from([0, 0, H.U, 4 * H.U])), 'mutate': mutate, 'fresh': 1,
             'raise_type': draw(st.sampled_from(sorted(H.RAISE_TYPES))), 'two_batchers': two,
             'twice_gap': draw(st.sampled_from([0, 0, 4 * H.U, 0.25]))}
 
